@@ -250,4 +250,89 @@ theorem readCall_blocked {β : Type} (p : Params) (D : Dec β) (c : Ctx) (t : Ta
     exact ⟨h, hpi (by simp)⟩
   · simp [hi] at h
 
+/-! ### the close-notify look-ahead and the record-layer part of one `Read` -/
+
+/-- the look-ahead never returns a bare error; when it returns one with the bytes it is latched and
+`c.input` is empty; it only ever runs with `c.input` drained -/
+theorem lookAhead_shape (t : Tail) (pk : Bool) (s : RxState) (ws : List (Wire Bytes)) (out : Bytes) :
+    (∀ e, (lookAhead t pk s ws out).2 ≠ .err e) ∧
+    (∀ d e, (lookAhead t pk s ws out).2 = .okErr d e → d = out ∧ out ≠ [] ∧ s.input = [] ∧
+        (lookAhead t pk s ws out).1.1.err = some e ∧ (lookAhead t pk s ws out).1.1.input = []) ∧
+    (∀ d, (lookAhead t pk s ws out).2 = .blocked d → d = out ∧ out ≠ [] ∧ s.input = [] ∧
+        (lookAhead t pk s ws out).1.1.input = []) ∧
+    (∀ d, (lookAhead t pk s ws out).2 = .ok d → d = out) := by
+  unfold lookAhead
+  by_cases hc : (decide (out ≠ []) && s.input == [] && pk) = true
+  · simp only [hc, if_true]
+    have hi : s.input = [] := by
+      simp only [Bool.and_eq_true, beq_iff_eq] at hc; exact hc.1.2
+    have hne : out ≠ [] := by
+      simp only [Bool.and_eq_true, decide_eq_true_eq] at hc; exact hc.1.1
+    obtain ⟨h1, h2, h3⟩ := pump_latch P plainDec Ctx.established t true ws s hi
+    have hpi := pump_input P plainDec Ctx.established t true ws s hi
+    generalize pump P plainDec Ctx.established t true s ws = r at h1 h2 h3 hpi
+    obtain ⟨s3, ws3, st⟩ := r
+    simp only at h1 h2 h3 hpi
+    cases st with
+    | err e =>
+      refine ⟨by simp, ?_, by simp, by simp⟩
+      intro d e' h
+      simp only [ReadRes.okErr.injEq] at h
+      obtain ⟨rfl, rfl⟩ := h
+      exact ⟨rfl, hne, hi, h1 e rfl⟩
+    | blocked =>
+      refine ⟨by simp, by simp, ?_, by simp⟩
+      intro d h
+      simp only [ReadRes.blocked.injEq] at h
+      subst h
+      exact ⟨rfl, hne, hi, hpi (by simp)⟩
+    | filled => exact ⟨by simp, by simp, by simp, by intro d h; simp at h; exact h.symm⟩
+    | nil => exact ⟨by simp, by simp, by simp, by intro d h; simp at h; exact h.symm⟩
+  · simp only [hc, Bool.false_eq_true, if_false]
+    exact ⟨by simp, by simp, by simp, by intro d h; simp at h; exact h.symm⟩
+
+/-- `readRec` (fill, drain, look-ahead): every error result is latched with `c.input` empty, a
+blocked call leaves `c.input` empty, and a latched state with empty `c.input` answers every
+non-empty read with its error and does not change -/
+theorem readRec_latch (t : Tail) (seg : Seg) (raw : Nat) (tb : Bool)
+    (s : RxState) (ws : List (Wire Bytes)) (n : Nat) (hn : n ≠ 0) :
+    (∀ e, (readRec t seg raw tb s ws n).1.2 = .err e →
+        (readRec t seg raw tb s ws n).1.1.1.err = some e ∧ (readRec t seg raw tb s ws n).1.1.1.input = []) ∧
+    (∀ d e, (readRec t seg raw tb s ws n).1.2 = .okErr d e →
+        (readRec t seg raw tb s ws n).1.1.1.err = some e ∧ (readRec t seg raw tb s ws n).1.1.1.input = []) ∧
+    (∀ d, (readRec t seg raw tb s ws n).1.2 = .blocked d → (readRec t seg raw tb s ws n).1.1.1.input = []) ∧
+    (∀ e, s.err = some e → s.input = [] → (readRec t seg raw tb s ws n).1 = ((s, ws), .err e)) := by
+  obtain ⟨l1, l2, l3⟩ := readCall_latch P plainDec Ctx.established t s ws n hn
+  have lb := readCall_blocked P plainDec Ctx.established t s ws n
+  unfold readRec
+  generalize readCall P plainDec Ctx.established t s ws n false = r1 at l1 l2 l3 lb
+  obtain ⟨⟨s1, ws1⟩, res1⟩ := r1
+  simp only at l1 l2 l3 lb ⊢
+  cases res1 with
+  | ok out =>
+    simp only
+    generalize (decide (rawAfter seg raw (ws.length - ws1.length) ws1.length tb > 0) &&
+      nextWire ws1 t == some P.tAlert) = pk
+    obtain ⟨a1, a2, a3, a4⟩ := lookAhead_shape t pk s1 ws1 out
+    generalize lookAhead t pk s1 ws1 out = la at a1 a2 a3 a4
+    refine ⟨fun e h => absurd h (a1 e), fun d e h => (a2 d e h).2.2.2, fun d h => (a3 d h).2.2.2, ?_⟩
+    intro e he hi
+    have := l3 e he hi
+    simp at this
+  | okErr d e => exact absurd rfl (l2 d e)
+  | err e =>
+    simp only
+    refine ⟨fun e' h => by cases h; exact l1 e rfl, by simp, by simp, ?_⟩
+    intro e' he hi
+    have := l3 e' he hi
+    simp only [Prod.mk.injEq] at this
+    obtain ⟨⟨rfl, rfl⟩, h⟩ := this
+    cases h; rfl
+  | blocked d =>
+    simp only
+    refine ⟨by simp, by simp, fun d' h => by cases h; exact (lb d rfl).2, ?_⟩
+    intro e' he hi
+    have := l3 e' he hi
+    simp at this
+
 end Gotlcp.Lemmas.ConnAPI
